@@ -362,7 +362,7 @@ class Gen:
 
     def type2(self, depth):
         r = self.rng
-        opts = ["value"] * 4 + ["name"] * 4 + ["tagm", "any", "unwrap", "gname"]
+        opts = ["value"] * 4 + ["name"] * 4 + ["tagm", "any", "gname"] + (["unwrap"] if r.random() < 0.3 else [])
         if depth > 0:
             opts += ["paren", "map", "map", "arr", "arr", "ginl", "tag", "tag"]
         k = r.choice(opts)
@@ -413,7 +413,10 @@ class Gen:
             return {"t2": self.bound(), "op": ["r", r.random() < 0.5], "c2": self.bound()}
         self.note("op.ctl")
         name = r.choice(CTL_NAMES)
-        return {"t2": self.type2(min(depth, 1)), "op": ["c", "." + name], "c2": self.type2(min(depth, 1))}
+        t2 = self.type2(min(depth, 1))
+        if t2[0] in ("gname", "unwrap") and r.random() < 0.75:      # `&name .op x` is a known finding: keep it rare
+            t2 = ["name", self.ident(), None]
+        return {"t2": t2, "op": ["c", "." + name], "c2": self.type2(min(depth, 1))}
 
     def type(self, depth):
         r = self.rng
@@ -796,8 +799,15 @@ FINDING_RULES = [
 ]
 
 
-def classify(shape, rules=FINDING_RULES):
+def active_rules():
+    if ACTIVE["rules"] is None:
+        return FINDING_RULES
+    return [r for r in FINDING_RULES if r[0] in ACTIVE["rules"]]
+
+
+def classify(shape, rules=None):
     """ids of the findings whose classifier holds somewhere in the shape"""
+    rules = active_rules() if rules is None else rules
     hit = []
 
     def fn(kind, n):
@@ -809,7 +819,9 @@ def classify(shape, rules=FINDING_RULES):
     return hit
 
 
-def neutralise(shape, ids, rules=FINDING_RULES):
+def neutralise(shape, ids, rules=None):
+    rules = active_rules() if rules is None else rules
+
     def fn(kind, n):
         changed = True
         guard = 0
@@ -977,7 +989,27 @@ def shrink(shape, still_fails_batch, max_rounds=60):
 # comment placement hazards (C16 findings): predicates on the slot a comment is attached to and its path in the AST
 # ---------------------------------------------------------------------------------------------
 
+C16_WITNESSES = {
+    "kf-c16-first-choice-trailing-comment": [("a = int / tstr", "a = int ; c1\n / tstr", [" c1"]),
+                                             ("a = (int) / x", "a = (int ; c1\n) / x", [" c1"])],
+    "kf-c16-newlines-deleted-in-multi-choice-group": [("a = [ int, tstr // bool // nil ]", "a = [ int, ; c1\n tstr // bool // nil ]", [" c1"])],
+    "kf-c16-last-comment-of-second-group-choice": [("a = [ int // tstr ]", "a = [ int // tstr ; c1\n ]", [" c1"])],
+    "kf-c16-grpchoice-comment-dropped": [("a = [ int // tstr ]", "a = [ int //\n ; c1\n tstr ]", [" c1"])],
+}
+
+# findings whose witnesses still fail on the tree under test; a classifier of a finding that was repaired is switched off,
+# so a document that still fails in that class is reported as a violation instead of being excused
+ACTIVE = {"hazards": None, "rules": None}
+
+
 def comment_hazards(slot, path, c0=()):
+    hz = comment_hazards_all(slot, path, c0)
+    if ACTIVE["hazards"] is not None:
+        hz = [h for h in hz if h in ACTIVE["hazards"]]
+    return hz
+
+
+def comment_hazards_all(slot, path, c0=()):
     """ids of the C16 findings whose classifier holds for a comment attached at `slot` with AST `path`
     (frames as printed by the driver, see harness/src/bin/c06.rs); c0 = all attached comments of the document"""
     hz = []
@@ -1018,11 +1050,12 @@ def comment_hazards(slot, path, c0=()):
 # literal catalogue: Fmt/Render.v against the real Display impls
 # ---------------------------------------------------------------------------------------------
 
-def float_decimal(f):
+def float_decimal(f, lower_exp=None):
     """(neg, m, e) with value = (-1)^neg * m * 10^e, m not divisible by 10 (0 -> (neg,0,0)): the shortest round-trip
-    digits, obtained from Python's repr (David Gay's algorithm; Rust's Grisu/Dragon yields the same shortest digits)"""
+    digits. `lower_exp` is the crate's own `{:e}` rendering of the value (core::fmt's shortest-digit generator, the one
+    `{}` uses too); Python's repr is only a fallback - the two generators pick different digits on exact ties."""
     neg = struct.pack(">d", f)[0] >= 0x80
-    r = repr(abs(f))
+    r = lower_exp.lstrip("-") if lower_exp else repr(abs(f))
     mant, _, ex = r.partition("e")
     ex = int(ex) if ex else 0
     ip, _, fp = mant.partition(".")
@@ -1035,7 +1068,7 @@ def float_decimal(f):
     return neg, int(stripped), e
 
 
-def literal_catalogue(rng, n_random):
+def literal_catalogue(rng, n_random, drv=None):
     """list of (class, driver line, oracle line, source spelling for the document-level check or None)"""
     cat = []
     for u in UINTS + [str(rng.randrange(1 << rng.choice([4, 8, 16, 32, 63, 64]))) for _ in range(n_random)]:
@@ -1058,12 +1091,16 @@ def literal_catalogue(rng, n_random):
         else:
             f = float(rng.randrange(-(1 << 30), 1 << 30))
         floats.append(f)
+    exps = {}
+    if drv is not None:
+        outs = common.run_tool(drv, ["L\tFE\t" + f64_bits(f) for f in floats])
+        exps = {f64_bits(f): unwrap_L(o) for f, o in zip(floats, outs) if o.startswith("OK ")}
     for f in floats:
         bits = f64_bits(f)
         if f in (float("inf"), float("-inf")):
             ol = "L\tF\tinf\t%d" % (1 if f < 0 else 0)
         else:
-            neg, m, e = float_decimal(f)
+            neg, m, e = float_decimal(f, exps.get(bits))
             ol = "L\tF\t%d\t%d\t%d" % (1 if neg else 0, m, e)
         cat.append(("float", "L\tF\t" + bits, ol, float_src(bits)))
         cat.append(("float.value", "L\tVF\t" + bits, ol, None))
@@ -1114,6 +1151,22 @@ def marker_catalogue():
         cat.append(("cut", "L\tX\t%d" % b, "X\t%d" % b, None))
         cat.append(("rangeop", "L\tRO\t%d" % b, "R\t%d" % b, None))
     return cat
+
+
+def repaired_variant(cls, rendering):
+    """what the literal would print as once the proposed fix for its class is applied (design.d/C06-fix-*.patch); None if the
+    class has no literal-level fix or the fix does not change this rendering"""
+    base_cls = cls.split(".")[0]
+    if base_cls == "float":
+        if rendering.lstrip(b"-").isdigit():
+            return rendering + b".0"
+    if base_cls == "text":
+        inner = rendering[1:-1]
+        if b'"' in inner or b"\\" in inner:
+            return b'"' + inner.replace(b"\\", b"\\\\").replace(b'"', b'\\"') + b'"'
+    if base_cls == "unwrap":
+        return b"~" + rendering
+    return None
 
 
 def unwrap_L(o):
@@ -1170,9 +1223,22 @@ def comment_verdict(base_shape, src_comments, r):
     return "ok"
 
 
-def hazards_of(r):
+def hazards_of(r, all_findings=False):
     """{comment text: [finding ids]} for the comments attached in the source AST"""
-    return {x[1]: comment_hazards(x[0], x[2], r.get("c0", [])) for x in r.get("c0", [])}
+    f = comment_hazards_all if all_findings else comment_hazards
+    return {x[1]: f(x[0], x[2], r.get("c0", [])) for x in r.get("c0", [])}
+
+
+def probe_comment_findings(drv):
+    """{finding id: list of witnesses that still fail} for the C16 findings, and sets the active hazard set"""
+    out = {}
+    for fid, ws in C16_WITNESSES.items():
+        b = roundtrips(drv, [w[0] for w in ws])
+        r = roundtrips(drv, [w[1] for w in ws])
+        out[fid] = [w for w, bb, rr in zip(ws, b, r) if verdict(bb) == "ok" and comment_verdict(bb["s0"], w[2], rr) != "ok"
+                    and fid in [h for hs in hazards_of(rr, True).values() for h in hs]]
+    ACTIVE["hazards"] = {f for f, w in out.items() if w}
+    return out
 
 
 def slots_of(c):
@@ -1331,13 +1397,14 @@ def run(tier, seed):
             res.known(open_findings[fid])
 
     # ---- A. literal and marker renderers: model vs code, and the round-trip flag vs the code's own round trip
-    cat = literal_catalogue(rng, (60 if quick else 1500) * wide) + marker_catalogue()
+    cat = literal_catalogue(rng, (60 if quick else 3000) * wide, drv) + marker_catalogue()
     impl = common.run_tool(drv, [c[1] for c in cat])
     model = [bytes.fromhex(x) if x != "?" else b"?" for x in common.run_tool(orc, [c[2] for c in cat])]
     docs = [("a = " + c[3]) if (c[3] is not None and not c[3].startswith("a = ")) else c[3] for c in cat]
     rts = roundtrips(drv, [d for d in docs if d is not None])
     rt_iter = iter(rts)
     lit_stats = {}
+    lit_modes = {}
     for c, a, m, d in zip(cat, impl, model, docs):
         evaluations += 1
         cls = c[0]
@@ -1352,9 +1419,15 @@ def run(tier, seed):
             rendering += b"(x)"          # the driver prints the whole TaggedData node with the type `x`
         if cls == "cut":
             rendering = b"x" + rendering  # ... and the whole member key `x`
-        if got != rendering:
+        fixed = repaired_variant(cls, rendering)
+        if fixed is not None:
+            mode = "repaired" if got == fixed else "faithful"
+            lit_modes.setdefault(cls.split(".")[0], set()).add(mode)
+        if got != rendering and not (fixed is not None and got == fixed):
             res.violation("renderer model and code differ on %s: code prints %r, Fmt/Render.v gives %r" % (c[1].replace("\t", " "), got, rendering),
                           {"kind": "literal", "driver_line": c[1], "oracle_line": c[2], "impl": a, "model": m.hex()})
+        if fixed is not None and got == fixed:
+            flag = "1"        # with the fix applied the literal has to survive the crate's own round trip
         if flag == "1":
             st["model_roundtrips"] += 1
         if d is not None:
@@ -1366,11 +1439,25 @@ def run(tier, seed):
                               % ("round-trips" if flag == "1" else "does not round-trip", c[2].replace("\t", " "), d, verdict(r)),
                               {"kind": "doc", "text": d, "oracle_line": c[2], "model": m.hex()})
 
-    # ---- B. witnesses of the open findings
+    for k, modes in lit_modes.items():
+        if len(modes) > 1:
+            res.violation("the %s renderer follows Fmt/Render.v for some values and the repaired form for others" % k,
+                          {"kind": "literal-mode", "class": k}, no_input=True)
+        elif modes == {"repaired"}:
+            res.notes.append("%s literals print in the repaired form of design.d/C06-fix-*.patch; Fmt/Render.v models the unrepaired renderer "
+                             "(update render_%s and its theorems when the fix is committed)" % (k, k))
+
+    # ---- B. witnesses of the open findings; classifiers of repaired findings are switched off for this run
+    ACTIVE["rules"] = None
+    ACTIVE["hazards"] = None
+    probe_comment_findings(drv)
+    still = set()
     for fid, texts in WITNESSES.items():
         rs = roundtrips(drv, texts)
         failing = [t for t, r in zip(texts, rs) if verdict(r) not in ("ok", "rejected")]
         evaluations += len(texts)
+        if failing:
+            still.add(fid)
         if fid in open_findings:
             if failing:
                 hit(fid)
@@ -1378,10 +1465,11 @@ def run(tier, seed):
                 res.notes.append("finding %s apparently repaired: none of its witnesses fails any more" % fid)
         elif failing:
             res.violation("witness of %s fails but the finding is not listed as open: %r" % (fid, failing[0]), {"kind": "doc", "text": failing[0]})
+    ACTIVE["rules"] = still
 
     # ---- C. generated and corpus documents without comments
     g = Gen(rng, defects=0.06)
-    n_docs = (2500 if quick else 150000) * wide
+    n_docs = (2200 if quick else 40000) * wide
     shapes = []
     while len(shapes) < n_docs:
         d = g.doc(depth=rng.choice([0, 1, 1, 1, 2, 2, 3]))
@@ -1451,7 +1539,7 @@ def run(tier, seed):
         break
 
     # ---- D. documents WITH comments: corpus files as they are, generated documents with random comment subsets
-    n_c = (900 if quick else 40000) * wide
+    n_c = (750 if quick else 12000) * wide
     base_shapes = []
     while len(base_shapes) < n_c // 3:
         s = g.doc(nrules=rng.choice([1, 2, 3]), depth=rng.choice([0, 1, 1, 2]))
@@ -1543,8 +1631,9 @@ def run(tier, seed):
         "samples": [{"text": t[:160], "verdict": verdict(r)} for t, r in list(zip(texts, rs))[:0]] + [{"text": t[:160]} for t in texts[:6]],
     })
     res.assumptions = [
-        "f64 Display digit generation (shortest round-trip digits) enters Fmt/Render.v as given decimal mantissa/exponent; only the layout "
-        "(fraction point, zero padding, no exponent) is modelled; checked against the crate for a float catalogue each run",
+        "f64 Display digit generation (shortest round-trip digits) enters Fmt/Render.v as given decimal mantissa/exponent (read from the "
+        "crate's own `{:e}` rendering of the same value); only the layout (fraction point, zero padding, no exponent) is modelled; "
+        "checked against the crate for a float catalogue each run",
         "data_encoding HEXLOWER / BASE64URL_NOPAD = RFC 4648 base16 / base64url without padding (Render.hexbytes, Render.b64_enc), checked each run",
         "the 1.5 kLoC of layout heuristics in ast/mod.rs are NOT modelled: structural preservation is established differentially only",
     ]
